@@ -146,7 +146,7 @@ static bool destroy_cb(world& w, int a, int c, bool wait_created)
 }
 
 // sequential handle algebra (single actor), random but respecting preconditions
-static void handle_phase(world& w, vlog::rng& R, int a, int nops)
+static void handle_phase(world& w, vlog::rng& R, int a, int nops, bool epilogue = true)
 {
     for (int i = 0; i < nops; ++i)
     {
@@ -191,6 +191,10 @@ static void handle_phase(world& w, vlog::rng& R, int a, int nops)
             ret(a, 0);
             break;
         case 5:
+            // often between two sources that share a state
+            if (R.chance(1, 2))
+                for (int x = 1; x <= NSRC; ++x)
+                    if (x != h && w.mirror_src[x] != 0 && w.mirror_src[x] == w.mirror_src[h]) g = x;
             if (h == g) break;
             call(a, "moveassign_src", h, g, 0);
             *w.src[h] = std::move(*w.src[g]);
@@ -260,6 +264,41 @@ static void handle_phase(world& w, vlog::rng& R, int a, int nops)
             }
             break;
         }
+    }
+    if (!epilogue) return;
+    // make sure handle operations between sources that SHARE a state occur: copy one, move-assign it
+    // onto its origin (what std::vector<stop_source>::erase does)
+    for (int h = 1; h <= NSRC; ++h)
+        for (int g = 1; g <= NSRC; ++g)
+            if (h != g && w.mirror_src[h] != 0 && w.mirror_src[g] == 0 && R.chance(1, 3))
+            {
+                call(a, "copy_src", g, h, 0);
+                w.src[g].reset();
+                w.src[g].emplace(*w.src[h]);
+                w.mirror_src[g] = w.mirror_src[h];
+                ret(a, 0);
+                call(a, "moveassign_src", h, g, 0);
+                *w.src[h] = std::move(*w.src[g]);
+                w.mirror_src[h] = w.mirror_src[g];
+                w.mirror_src[g] = 0;
+                ret(a, 0);
+            }
+    // epilogue: every source goes away, then every token is asked - a source count that the handle
+    // operations above left too high (or too low) shows here
+    for (int h = 1; h <= NSRC; ++h)
+    {
+        call(a, "destroy_src", h, 0, 0);
+        w.src[h].reset();
+        w.src[h].emplace(pika::nostopstate);
+        w.mirror_src[h] = 0;
+        ret(a, 0);
+    }
+    for (int th = 1; th <= NTOK; ++th)
+    {
+        call(a, "possible_tok", th, 0, 0);
+        ret(a, w.tok[th]->stop_possible() ? 1 : 0);
+        call(a, "requested_tok", th, 0, 0);
+        ret(a, w.tok[th]->stop_requested() ? 1 : 0);
     }
 }
 
